@@ -25,5 +25,10 @@ CLAIMED["C15"] = {
   "note": "Trusted: solvers, gosym encoding, the specification walker in the harness; SHA-256 idealised as collision-free UF (counterexample models are repaired with real SHA-256 before native replay). Outside: streams with more than two full records, record sizes that need more than 75 stream bytes to complete a unit (they fall into the short-final-record class).",
 }
 
-NOT_APPLICABLE = {p: PENDING for p in ["C01","C02","C03","C04","C05","C06","C07","C08","C09","C10","C16","C17","C18","C19"]}
+CLAIMED["C16"] = {
+  "text": "Bounded symbolic model checking of the structured-header parser and writer. Parser = grammar: ParseParameterisedList and ParseListOfLists on EVERY string of length 0..4 (quick) / 0..6 (thorough) over all 256 byte values, and byte sequences '*'+0..6(8) arbitrary bytes+'*', agree with an independent draft-09 recursive-descent recogniser on accept/reject and on every label, key and item value. Writer: items of every kind (all integers |n|<10^3 quick / 10^5 thorough plus int64 extremes, strings/tokens of 0..2 arbitrary bytes, byte sequences 0..4 bytes, no value), symbolic labels and keys with nondeterministic Go map order: refuses exactly the invalid values, output equals an independent serialiser with sorted keys (unique), parse(serialise(v)) = v.",
+  "note": "Trusted: solvers (cvc5 primary for the decimal kernels), gosym encoding, the reference recogniser/serialiser; strconv and encoding/base64 are interpreted from their real SSA; strings.IndexAny is modelled for constant ASCII sets. Outside: longer inputs, integers of more digits other than the listed extremes (full-width decimal conversion is out of solver reach), lists with more than one member in the writer harness.",
+}
+
+NOT_APPLICABLE = {p: PENDING for p in ["C01","C02","C03","C04","C05","C06","C07","C08","C09","C10","C17","C18","C19"]}
 NOT_APPLICABLE["C20"] = "command-line tools over processes, files, net/http, PEM/PKCS#8/X.509: cannot be encoded by the SSA executor within reach (reflection/unsafe/syscalls); its one pure kernel is net/url resolution over symbolic strings (concrete-only in this engine). Running the binaries would be testing, a different family. See DESIGN.md §6.1."
